@@ -354,3 +354,57 @@ func sumBalancerOut(p ammtypes.Pool, ctx sdk.Context, o ammtypes.OracleKeeper, s
 //vrf:full-feas-ms 2000
 //vrf:max-paths 3000
 func H_O5_OracleSwap_ExactIn_BalancerHavocked() { H_O5_OracleSwap_ExactIn() }
+
+// contract of Pool.CalcGivenOutSlippage: any non-negative slippage amount (the code clamps it at zero)
+func sumSlippageOut(p ammtypes.Pool, ctx sdk.Context, o ammtypes.OracleKeeper, snap *ammtypes.Pool, tokensOut sdk.Coins, inDenom string, acc ammtypes.AccountedPoolKeeper) (sdkmath.LegacyDec, error) {
+	s := vrf.Dec("slippageAmount")
+	vrf.Assume(!s.IsNegative())
+	return s, nil
+}
+
+// O5 exact-out: what the trader is charged is worth at least, at oracle prices, what the oracle pool pays out. The
+// charged amount is rounded UP to a base unit of the input token, so the only allowance is the 18-digit rounding of the
+// three decimal divisions in front of it (1.5e-18 input units): in*pIn + 2e-18*pIn >= out*pOut.
+//
+//vrf:summary (github.com/elys-network/elys/x/amm/types.Pool).CalcGivenOutSlippage => sumSlippageOut
+//vrf:summary github.com/elys-network/elys/x/amm/types.GetWeightBreakingFee => sumWBF
+//vrf:cover swap-ok
+//vrf:bound oracle pool, 2 assets; prices, fee in [0,2%], external-liquidity ratio in (0,1] symbolic; slippage amount (>= 0, zero included) and weight-breaking fee havocked within their clamped ranges; exact-out form
+//vrf:assert-ms 120000
+//vrf:full-feas-ms 2000
+//vrf:max-paths 3000
+func H_O5_OracleSwap_ExactOut() {
+	env := vrf.NewWorld()
+	ctx := vrf.NewCtx(env)
+	ba, bu, out := vrf.Int("Batom"), vrf.Int("Busdc"), vrf.Int("out")
+	pa, pu := vrf.Dec("pAtom"), vrf.Dec("pUsdc")
+	fee, ext := feeIn2pct(), vrf.Dec("extRatio")
+	vrf.Assume(ba.IsPositive())
+	vrf.Assume(bu.IsPositive())
+	vrf.Assume(out.IsPositive())
+	vrf.Assume(out.LT(bu))
+	vrf.Assume(pa.IsPositive())
+	vrf.Assume(pu.IsPositive())
+	vrf.Assume(ext.IsPositive())
+	vrf.Assume(ext.LTE(sdkmath.LegacyOneDec()))
+	pool := ammtypes.Pool{
+		PoolId:     1,
+		PoolParams: ammtypes.PoolParams{UseOracle: true, SwapFee: fee},
+		PoolAssets: []ammtypes.PoolAsset{
+			{Token: sdk.Coin{Denom: "uatom", Amount: ba}, Weight: sdkmath.NewInt(1), ExternalLiquidityRatio: ext},
+			{Token: sdk.Coin{Denom: "uusdc", Amount: bu}, Weight: sdkmath.NewInt(1), ExternalLiquidityRatio: ext},
+		},
+		TotalWeight: sdkmath.NewInt(2),
+	}
+	snap := pool
+	in, _, _, _, _, err := pool.SwapInAmtGivenOut(ctx, oracle{pa: pa, pu: pu}, &snap, sdk.Coins{{Denom: "uusdc", Amount: out}}, "uatom", fee, noAcc{}, sdkmath.LegacyOneDec(), ammtypes.DefaultParams())
+	if err != nil {
+		return
+	}
+	vrf.Cover("swap-ok")
+	vrf.Observe("in", in.Amount)
+	// in 1e-18 units of value: (in*1e18 + 2) * PA >= out*1e18 * PU, PA / PU the price mantissas
+	e18 := sdkmath.NewIntWithDecimal(1, 18)
+	PA, PU := pa.MulInt(e18).TruncateInt(), pu.MulInt(e18).TruncateInt()
+	vrf.Assert(in.Amount.Mul(e18).AddRaw(2).Mul(PA).GTE(out.Mul(e18).Mul(PU)), "O5 exact-out: value charged >= value paid out (the charge is rounded up to a base unit)")
+}
